@@ -23,6 +23,7 @@ type dbInfo struct {
 	p           *eng.Prog
 	checkAndLog *ssa.Function
 	checkers    map[*ssa.Function]checkerSig // candidate permission-checking helpers (by signature)
+	helpersOnly bool                         // successfulCheck accepts only helper calls, not bare Allow (C06: audit-writing helpers)
 	methods     []*dbMethod
 	touch       map[*ssa.Function]bool // functions that (transitively) access the secrets state
 	writes      map[*ssa.Function]bool // functions that (transitively) mutate the secrets state
@@ -282,7 +283,7 @@ func (d *dbInfo) successfulCheck(c eng.Cond, prm *ssa.Parameter, action string, 
 			}
 		}
 	}
-	if call, _, truth, ok := c.BoolCall(); ok && truth {
+	if call, _, truth, ok := c.BoolCall(); ok && truth && !d.helpersOnly {
 		if holder, av, nv, ok := allowCall(&call.Call); ok {
 			act, okA := constAction(av)
 			switch {
